@@ -44,7 +44,7 @@ FIELDS.update({"phi": value, "psi": value, "theta": value})
 def strategy(tier):
     return st.fixed_dictionaries(
         {
-            "table": gen.table(1, 12, fields=FIELDS, permute=True, bulk_max=300,
+            "table": gen.table(1, 12, fields=FIELDS, permute=True, bulk_max=300, bulk_large=(900, 2600),
                                id_strategy=st.one_of(st.integers(1, 5000), st.integers(2**24, 2**26))),
             "wpath": st.sampled_from(["motl_default", "motl_emmotl", "emmotl_class", "load_then_write", "emmotl_class_with_header"]),
             "rpath": st.sampled_from(["load", "emmotl_class"]),
@@ -56,6 +56,7 @@ def _bulk(rng, n, first_id):
     a = rng.normal(0, 1, (n, 20)) * 10.0 ** rng.integers(-3, 6, (n, 20))
     a[rng.random((n, 20)) < 0.05] = np.nan
     a[:, gen.COL_IDX["subtomo_id"]] = first_id + 1 + np.arange(n)
+    a[rng.random(n) < 0.03] = np.nan  # particles with every field missing are particles too: they read back as rows of zeros
     return a
 
 
@@ -65,6 +66,17 @@ def corner_cases(tier):
     for order in (list(reversed(cols)), cols[1:] + cols[:1], sorted(cols)):
         for w in ("motl_default", "emmotl_class"):
             yield {"table": {"cols": order, "rows": base, "bulk": None}, "wpath": w, "rpath": "load"}
+    yield from _more_corners()
+
+
+def _more_corners():
+    cols = oracle.MOTL_COLUMNS
+    nan = float("nan")
+    rows = [[float(i * 20 + j + 1) for j in range(20)] for i in range(4)]
+    rows[1] = [nan] * 20
+    yield {"table": {"cols": cols, "rows": rows, "bulk": None}, "wpath": "emmotl_class", "rpath": "load"}
+    yield {"table": {"cols": list(reversed(cols)), "rows": [[nan] * 20], "bulk": None}, "wpath": "motl_default", "rpath": "load"}
+    yield {"table": {"cols": cols, "rows": rows[:1], "bulk": {"seed": 5, "n": 1003}}, "wpath": "emmotl_class", "rpath": "emmotl_class"}
 
 
 def run(case):
